@@ -82,7 +82,7 @@ def run_instr():
     open(os.path.join(BUILD, "sites.json"), "w").write(json.dumps(sites, indent=1))
     return True
 
-def build(name, pkg="./internal/verif/props/", race=False, instr=False, tags="verif"):
+def build(name, pkg="./internal/verif/props/", race=False, instr=False, tags="verif", extra=None):
     """name: output binary name under build/. Returns path or None."""
     modpath = prepare_mod()
     if instr and not run_instr():
@@ -92,6 +92,7 @@ def build(name, pkg="./internal/verif/props/", race=False, instr=False, tags="ve
     cmd = ["go", "test", "-c", "-o", out, "-vet=off", "-tags", tags, "-modfile=" + modpath, "-overlay=" + ov]
     if race:
         cmd.append("-race")
+    cmd.extend(extra or [])
     cmd.append(pkg)
     r = subprocess.run(cmd, cwd=REPO, env=goenv(), capture_output=True, text=True)
     if r.returncode != 0:
